@@ -94,6 +94,24 @@ def build_degenerate(case):
     return tpl.copy(data=data)
 
 
+def _alpha_overflows(ref, f, tp):
+    """Phillips' alpha by the documented tail fit, in float64: True when it is beyond float32 range
+    (the formula multiplies by exp(1.25 (fp/f)^4), astronomically large when the fitted bins lie far below fp)."""
+    if not (tp > 0):
+        return False
+    f32 = np.asarray(f, dtype=np.float32).astype(np.float64)
+    fp = float(np.float32(1.0 / tp))
+    pos = [i for i in range(len(f32)) if 1.35 * fp < f32[i] < 2.0 * fp]
+    n = len(f32)
+    if len(pos) == 0:
+        pos = [n - 2, n - 1]
+    elif len(pos) == 1:
+        pos = [pos[0] - 1, pos[0]] if pos[0] == n - 1 else [pos[0], pos[0] + 1]
+    with np.errstate(over="ignore"):
+        val = (2 * math.pi) ** 4 / 9.80665**2 / (pos[-1] - pos[0] + 1) * sum(ref.S[i] * f32[i] ** 5 * np.exp(np.float64(1.25 * (fp / f32[i]) ** 4)) for i in pos)
+    return (not math.isfinite(val)) or val > 1e37
+
+
 def _row_unidirectional(ref):
     pk = ref.peak_index()
     if not pk:
@@ -158,6 +176,11 @@ def check_degenerate(case, ctx):
                 allowed = True if name == "fdspr" else ((not peak) or len(d) == 1 or _row_unidirectional(ref))
             if name == "gamma":
                 allowed = False
+            if name == "alpha" and peak and not allowed:
+                tpv = float(np.asarray(x.spec.tp().values, dtype=float).ravel()[0])
+                allowed = _alpha_overflows(ref, f, tpv)
+                if allowed:
+                    ctx.label("alpha-beyond-float32(overflow allowed)")
             if not allowed:
                 raise Violation("non-finite", "%s[%s] is non-finite (%d of %d values) on a %s spectrum with %s and %s (grid %dx%d, dtype %s)" % (
                     name, k, int(bad.sum()), bad.size, case["cls"], "energy" if energy else "zero energy", "an interior peak" if peak else "no interior peak", nf, len(d), case["dtype"]))
